@@ -18,7 +18,10 @@ shutil.rmtree(out, ignore_errors=True); os.makedirs(out, exist_ok=True)
 subprocess.run(["git", "-C", "/repo", "worktree", "remove", "--force", tree], capture_output=True)
 os.makedirs("/tmp/eval", exist_ok=True)
 subprocess.run(["git", "-C", "/repo", "worktree", "add", "-q", "--detach", tree, "HEAD"], check=True)
-res = {"name": a.name, "patch": a.patch, "checks": {}}
+def _head(d):
+    return subprocess.run(["git", "-C", d, "rev-parse", "--short", "HEAD"], capture_output=True, text=True).stdout.strip()
+res = {"name": a.name, "patch": a.patch, "checks": {}, "repo_head": _head("/repo"), "verif_head": _head(VERIF),
+       "verif_dirty": bool(subprocess.run(["git", "-C", VERIF, "status", "--porcelain", "pv"], capture_output=True, text=True).stdout.strip())}
 try:
     r = subprocess.run(["git", "-C", tree, "apply", os.path.abspath(a.patch)], capture_output=True, text=True)
     if r.returncode != 0:
